@@ -38,7 +38,7 @@ type famScenario struct {
 
 // (decorated names next to their plain twins: a sigil, a dot or a trailing colon is part of the name)
 var famLits = []string{"a", "b", "foo", "__gensym", "__anon", "x9", "#lz", "lz", "?q", "q", "a.b", "c.b", "ab", ".dot", "dot", "k:", "k", "x-y", "A", "a1", "a:", "#a", "b.", "fo", "o", "", " ", "a b"}
-var famPrefixes = []string{"__gensym", "__anon", "__loop", "__g", "p"}
+var famPrefixes = []string{"__gensym", "__anon", "__loop", "__g", "p", "__g1", "p1", "__gensym0"}
 
 func genFamName(r *kernel.RNG) famName {
 	if r.Chance(0.45) {
